@@ -376,8 +376,11 @@ impl<'a, F: IVP> SolOut for DefaultSolOut<'a, F> {
                     // Check for terminal event
                     if let Some(limit) = config.terminal_count {
                         if self.event_hits[i] >= limit {
-                            // Requested output times up to the event are still due
+                            // Requested output times up to the event are still due; none beyond it,
+                            // not even by the rounding slack: the event point follows them
+                            let slack = std::mem::replace(&mut self.tol, 0.0);
                             self.sample_t_eval(xold, event_t, &event_y, interpolant);
+                            self.tol = slack;
 
                             // Add the terminal event point to the output
                             self.t.push(event_t);
